@@ -128,7 +128,8 @@ func (Engine) Run(c *choice.Src, o engine.Opt) (out engine.Out) {
 		thrmodel.Share{Bytes: bh, Kind: "badheader", TrueOf: -1},
 		thrmodel.Share{Bytes: neg, Kind: "negated", TrueOf: -1},
 		thrmodel.Share{Bytes: append([]byte(nil), pool[2%n].Bytes[:47]...), Kind: "len47", TrueOf: -1},
-		thrmodel.Share{Bytes: []byte{}, Kind: "len0", TrueOf: -1})
+		thrmodel.Share{Bytes: []byte{}, Kind: "len0", TrueOf: -1},
+		thrmodel.Share{Bytes: nil, Kind: "nil", TrueOf: -1})
 	me := c.Choose(n, "me")
 	env := &thrmodel.Env{N: n, T: t, Pool: pool, GroupSig: hex.EncodeToString(gsig), MyShare: hex.EncodeToString(pool[me].Bytes)}
 	participant := c.Bool(1, 2, "participant")
@@ -170,7 +171,7 @@ func (Engine) Run(c *choice.Src, o engine.Opt) (out engine.Out) {
 				op.Orig = c.Choose(n, "orig")
 				switch c.Choose(8, "sharekind") {
 				case 0:
-					op.Share = n + c.Choose(5, "bad")
+					op.Share = n + c.Choose(len(pool)-n, "bad")
 				case 1:
 					op.Share = c.Choose(n, "othershare") // possibly a wrong signer's share
 				case 2:
